@@ -44,6 +44,12 @@ pub fn exec(func: &str, a: &mut Args) -> String {
             match corner_direction(&p, &q, &r) { Orientation::Ccw => "ccw", Orientation::Cw => "cw", Orientation::None => "none" }.into() }
         "is_point_in_triangle" => { let p = d2::p(a); let q = d2::p(a); let r = d2::p(a); let s = d2::p(a);
             match is_point_in_triangle(&p, &q, &r, &s) { None => "none".into(), Some(x) => b(x).into() } }
+        "convex_polygons_intersection_points" => { let p1 = poly(a); let p2 = poly(a);
+            let mut out = Vec::new();
+            crate::p2::transformation::convex_polygons_intersection_points(&p1, &p2, &mut out);
+            let mut s = format!("{}", out.len());
+            for q in out.iter() { s.push(' '); s.push_str(&d2::fp(q)); }
+            s }
         _ => "nofn".into(),
     }
 }
@@ -212,6 +218,35 @@ pub fn gen(r: &mut Rng, thorough: bool) -> Vec<(String, String)> {
             // a convex polygon is also a polygon: both predicates on the same input
             v.push(("point_in_poly2d".into(), format!("{} {}", d2::hp(&q), hpoly(&c))));
         }
+        // convex ∩ convex
+        for _ in 0..2 {
+            let (p1, p2) = gen_convex_pair(r, lat);
+            v.push(("convex_polygons_intersection_points".into(), format!("{} {}", hpoly(&p1), hpoly(&p2))));
+        }
     }
     v
+}
+
+/// two convex polygons in a chosen relation (generic overlap, translate, containment, shared vertex / edge, identical, disjoint)
+fn gen_convex_pair(r: &mut Rng, lat: bool) -> (Vec<P2>, Vec<P2>) {
+    let p = gen_convex(r, lat);
+    if p.len() < 3 { return (p.clone(), gen_convex(r, lat)); }
+    let shift = |q: &[P2], dx: f64, dy: f64| -> Vec<P2> { q.iter().map(|v| P2::new(v.x + dx, v.y + dy)).collect() };
+    let scale_about = |q: &[P2], c: &P2, k: f64| -> Vec<P2> { q.iter().map(|v| P2::new(c.x + (v.x - c.x) * k, c.y + (v.y - c.y) * k)).collect() };
+    let q: Vec<P2> = match r.below(10) {
+        0 | 1 | 2 => gen_convex(r, lat),                                            // unrelated (overlap / disjoint / containment by chance)
+        3 => { let d = if lat { (r.lattice(8, 2), r.lattice(8, 2)) } else { (r.uniform(-5.0, 5.0), r.uniform(-5.0, 5.0)) }; shift(&p, d.0, d.1) } // translate: parallel edges
+        4 => { let c = p[r.below(p.len() as u64) as usize]; scale_about(&p, &c, *r.pick(&[0.5, 0.25, 2.0])) }   // containment, shared vertex, collinear edges
+        5 => { let i = r.below(p.len() as u64) as usize; let j = (i + 1) % p.len();                                // shares the edge (i,j), other side
+               let (a, b) = (p[i], p[j]); let n = P2::new(b.y - a.y, -(b.x - a.x)); let k = *r.pick(&[0.5, 1.0, 2.0]);
+               vec![b, a, P2::new((a.x + b.x) * 0.5 + n.x * k, (a.y + b.y) * 0.5 + n.y * k)] }
+        6 => p.clone(),                                                             // identical
+        7 => { let cx = p.iter().map(|v| v.x).sum::<f64>() / p.len() as f64; let cy = p.iter().map(|v| v.y).sum::<f64>() / p.len() as f64;
+               let c = if lat { P2::new((cx * 4.0).round() / 4.0, (cy * 4.0).round() / 4.0) } else { P2::new(cx, cy) };
+               scale_about(&p, &c, *r.pick(&[0.5, 2.0, 1.5])) }                       // concentric containment
+        8 => { let i = r.below(p.len() as u64) as usize; let a = p[i];              // touches at the vertex p[i] only (or overlaps)
+               let t = gen_convex(r, lat); if t.is_empty() { t } else { let b = t[0]; shift(&t, a.x - b.x, a.y - b.y) } }
+        _ => { let w = if lat { 8.0 } else { 300.0 }; shift(&gen_convex(r, lat), w, 0.0) } // far apart
+    };
+    (p, respin(r, q))
 }
